@@ -233,8 +233,12 @@ func CheckRead(ctx context.Context, db *cesium.DB, m *tsm.Model, key uint32, a, 
 		// the signature names this situation so that the listed known finding (an index
 		// delete snaps the kept part forward to the next sample, past the start of a data
 		// domain) stays separate from every other read failure.
-		if !c.Spec.IsIndex && strings.Contains(err.Error(), "is not continuous in the index") && dataDomainOutsideIndex(m, c) {
-			sig = "read-error:data-domain-start-outside-index-coverage"
+		if !c.Spec.IsIndex && strings.Contains(err.Error(), "is not continuous in the index") {
+			if dataDomainOutsideIndex(m, c) {
+				sig = "read-error:data-domain-start-outside-index-coverage"
+			} else if IndexLostCoverage(ctx, db, m, c) {
+				sig = "read-error:data-domain-end-outside-index-coverage"
+			}
 		}
 		return kit.Fail(sig, "%s: Read(ch%d, [%d,%d)) failed: %v", where, key, a, b, err)
 	}
@@ -244,6 +248,47 @@ func CheckRead(ctx context.Context, db *cesium.DB, m *tsm.Model, key uint32, a, 
 	}
 	return nil
 }
+
+// IndexLostCoverage reports, from the engine's own state, whether some stored domain of the
+// data channel c reaches past the end of the index domain (chain) it starts in: full-range
+// reads of both channels return one series per stored domain with that domain's time range.
+// This is the layout of the second listed index-delete finding: deleting [a,b) from an index
+// channel whose domain boundary (a file rollover) lies before a, with a being the first sample
+// after that boundary, drops the sample-less kept part [boundary,a) of the index while the data
+// channel keeps its domain up to a; every read with a bound in that stretch then fails.
+func IndexLostCoverage(ctx context.Context, db *cesium.DB, m *tsm.Model, c *tsm.Chan) bool {
+	idxFr, err := db.Read(ctx, telem.TimeRangeMax, c.Spec.Index)
+	if err != nil {
+		return false
+	}
+	dataFr, err := db.Read(ctx, telem.TimeRangeMax, c.Spec.Key)
+	if err != nil {
+		return false
+	}
+	var cover []Interval2
+	for _, sr := range idxFr.SeriesSlice() {
+		s, e := int64(sr.TimeRange.Start), int64(sr.TimeRange.End)
+		if n := len(cover); n > 0 && s <= cover[n-1].E {
+			if e > cover[n-1].E {
+				cover[n-1].E = e
+			}
+			continue
+		}
+		cover = append(cover, Interval2{s, e})
+	}
+	for _, sr := range dataFr.SeriesSlice() {
+		s, e := int64(sr.TimeRange.Start), int64(sr.TimeRange.End)
+		for _, iv := range cover {
+			if s >= iv.S && s < iv.E && e > iv.E {
+				return true
+			}
+		}
+	}
+	return false
+}
+
+// Interval2 is a half-open interval of engine-reported timestamps.
+type Interval2 struct{ S, E int64 }
 
 // dataDomainOutsideIndex reports whether the data channel still covers a point that lies
 // in a snap gap of its index: the index channel was deleted up to b, the engine snapped
